@@ -39,6 +39,7 @@ type Obligation struct {
 	NoQuant bool // model-search variant: quantified assertions dropped
 	Model   string
 	PreNFacts int // cover: number of facts before the assumptions under test
+	ReachGuard string // cover: guard of the program point whose reachability decides whether the cover is vacuous
 	Blk     *ssa.BasicBlock
 	Trivial bool
 }
